@@ -16,7 +16,7 @@ package utils
 //@   modifies trigN, trigAt, routerStopped, timersStarted
 //@   epilogue trigAt = upd(trigAt, trigN, e)
 //@   epilogue trigN = trigN + 1
-//@   ensures[C09,C15] trigN == old(trigN) + 1 && sel(trigAt, old(trigN)) == e
+//@   ensures[C09,C15] trigN == old(trigN) + 1 && trigAt == upd(old(trigAt), old(trigN), e)
 //@   loop 1:
 //@     invariant 0 <= iter
 //@     decreases len(handlers) - iter
